@@ -43,3 +43,31 @@ package imagetype
 //@   requires r != nil
 //@   ensures [C09] err != nil ==> imageType == ImageUnknown
 //@   ensures [C09] err == nil ==> imageType != ImageUnknown && imageType == ImageType(specType(windowAt(r, 0)))
+
+// Documented names (C17): transcribed from the doc comments of the enum types (tools/gen_enum_contracts.py, reviewed).
+
+// imagetype/imagetype.go  (ImageType)
+//@ func ImageType.String
+//@   props C17
+//@   pure
+//@   ensures [C17] it == ImageUnknown ==> r0 == "application/octet-stream"
+//@   ensures [C17] it == ImageJPEG ==> r0 == "image/jpeg"
+//@   ensures [C17] it == ImagePNG ==> r0 == "image/png"
+//@   ensures [C17] it == ImageGIF ==> r0 == "image/gif"
+//@   ensures [C17] it == ImageBMP ==> r0 == "image/bmp"
+//@   ensures [C17] it == ImageWebP ==> r0 == "image/webp"
+//@   ensures [C17] it == ImageHEIF ==> r0 == "image/heif"
+//@   ensures [C17] it == ImageRAW ==> r0 == "image/raw"
+//@   ensures [C17] it == ImageTiff ==> r0 == "image/tiff"
+//@   ensures [C17] it == ImageDNG ==> r0 == "image/x-adobe-dng"
+//@   ensures [C17] it == ImageNEF ==> r0 == "image/x-nikon-nef"
+//@   ensures [C17] it == ImagePanaRAW ==> r0 == "image/x-panasonic-raw"
+//@   ensures [C17] it == ImageARW ==> r0 == "image/x-sony-arw"
+//@   ensures [C17] it == ImageCRW ==> r0 == "image/x-canon-crw"
+//@   ensures [C17] it == ImageGPR ==> r0 == "image/x-gopro-gpr"
+//@   ensures [C17] it == ImageCR3 ==> r0 == "image/x-canon-cr3"
+//@   ensures [C17] it == ImageCR2 ==> r0 == "image/x-canon-cr2"
+//@   ensures [C17] it == ImagePSD ==> r0 == "image/vnd.adobe.photoshop"
+//@   ensures [C17] it == ImageXMP ==> r0 == "application/rdf+xml"
+//@   ensures [C17] it == ImageAVIF ==> r0 == "image/avif"
+//@   ensures [C17] it == ImagePPM ==> r0 == "image/x-portable-pixmap"
